@@ -219,6 +219,15 @@ class _(_Line):
         ac, _ = acyclic(ex, lambda p, q: g.D(p, q))
         return {"RuntimeError": L.Not(one), "ValueError": L.And(one, L.Not(strict)), "NetworkXUnfeasible": L.And(one, strict, L.Not(ac))}
 
+    def audit(self, ex, callee, ac, a0):
+        """the new distribution is a product of conditionals of nodes of S' (the enclosing district)"""
+        L, g = ex.L, a0.g
+        out = list(super().audit(ex, callee, ac, a0))
+        if callee == f"{IDS}.p_conditional":
+            keep, CU, CUx = self._S(ex, a0)
+            out.append(("conditional-of-a-node-of-the-enclosing-district", L.And(g.N(ac.child.t), L.exists(1, lambda s: L.And(keep(s), CU(s, ac.child.t))))))
+        return out
+
     def post(self, ex, a, res):
         L, g = ex.L, a.g
         keep, CU, CUx = self._S(ex, a)
